@@ -1,6 +1,6 @@
 """Texts for MANIFEST.json (kept next to the registry so that the manifest is generated, never hand-edited)."""
 
-HOOK_COMMITS = ["6b17151", "e0e8847", "65427f2", "0fbf58c", "29762a5", "be72d47"]
+HOOK_COMMITS = ["6b17151", "e0e8847", "65427f2", "0fbf58c", "29762a5", "be72d47", "384c0f1", "b429189", "c1f9336", "e0edcbe", "b4147e7"]
 
 NOTES = ("Every check regenerates coq/Params.v from /repo, re-runs coqc on the property's theorems, rebuilds the harness "
          "from /repo's working tree with --cfg memchr_verif and compares the extracted model with the real crate. "
@@ -120,6 +120,21 @@ CHECKS = {
          "factorisation theorem).",
     design_ref="DESIGN.md section 6 (C12)", note=_MEM_NOTE,
     technique="Coq proofs: loop invariants (rolling-hash algebra, bit-level Shift-Or state, chunk scan) + differential correspondence (results, load/step traces)",
+ ),
+ "C13": dict(
+    text="C13_find / C13_finder / C13_rfind / C13_rfinder: for EVERY haystack, needle, address, architecture / CPU outcome, prefilter setting and "
+         "ranker, building the finder and searching performs at most 4905 * (|h| + 1) + 6 * |x| + 11 elementary steps forward and "
+         "70 * (|h| + 1) + 6 * |x| + 11 in reverse (steps = raw loads + loop ticks of the model's trace, the same events the hooks record and the "
+         "correspondence compares). Built from per-block cost theorems: memchr family 2|h|+16, memcmp n/2+4, Rabin-Karp |x|+(|h|+1)(|x|/2+6) (only "
+         "reached for haystacks below the generated thresholds 16/64), packed pair (|h|/16+2)(3+32(|x|/2+5)) with |x| capped by the generated "
+         "packed_max_len (C13_params fails if MAX_LEN is raised beyond 64), Two-Way preprocessing 5|x|+8 and search 3|h|+|x|+3 by a potential "
+         "argument using the Tier-2 facts (critical position, period, large-shift lower bound), prefilters 19 per skipped byte + 4883 per call, "
+         "amortised against the adaptive PrefilterState. PARTIAL: forward search of a needle in Two-Way's small-period case with a prefilter "
+         "attached has only the product bound C13_find_small_period_partial ((|x|+4905)(|h|+1)); with the prefilter disabled the linear bound "
+         "holds for every needle (C13_finder_noprefilter). Complete iterator traversals are checked by the run-time oracle only.",
+    design_ref="DESIGN.md section 0.5", note="Trusted: Coq kernel; the cost-exact hand-written model, tied to the code by comparing whole step traces (digests) on every run; "
+         "the placement of hooks (one event per load / loop iteration). No axioms. Partial: see text.",
+    technique="Coq proof: amortised (potential-function) step-cost bounds over the modelled loops, composed through the meta searcher + step-trace differential correspondence; growth families against the proved bound",
  ),
  "C14": dict(
     text="Props/C14.v: the model returns Ok (never Panic) for memmem::find/rfind, Finder/FinderRev for every prefilter configuration, ranker and CPU, "
